@@ -410,7 +410,8 @@ func (w *cWorld) onSend(f rsocks.Frame) {
 		w.record(L{1, 0, uint64(w.renewPre), 2, 0, uint64(li.yiaddr), uint64(li.sid), b2n(li.mask != nil), uint64(li.mtu), uint64(li.lease) * 1e9, uint64(li.t1) * 1e9, uint64(li.t2) * 1e9, w.renewT0, 3}, nil)
 	}
 	w.acts = append(w.acts, L{4, now, uint64(kind)})
-	if kind == 3 && w.renewEnd != 0 && now > w.renewEnd && w.vl16 != nil {
+	if kind == 3 && w.renewEnd != 0 && (now > w.renewEnd || (now == w.renewEnd && now < w.renewT0+uint64(w.renewPre))) && w.vl16 != nil {
+		// (a transmission at the very instant of the end, but before the look-up of the server could have finished, was set off by the end itself)
 		w.vl16.add("tx-after-end", "renewing REQUEST xid %08x transmitted at %d ns although the exchange had ended at %d ns, before its first transmission was due (seed %d)", xid, now, w.renewEnd, w.seedv)
 	}
 	if kind == 3 {
@@ -585,7 +586,7 @@ func TestC15(t *testing.T) {
 	c := newCaseWriter(t, "c15")
 	defer c.close(t, "c15")
 	vl, vl14 := &violationLog{}, &violationLog{}
-	for i := 0; i < scale(150, 5000); i++ {
+	for i := 0; i < scale(250, 5000); i++ {
 		runClientScript(t, c, vl, seed()*3000017+int64(i), vl14)
 	}
 	vl14.write(t, "c14wiring", map[string]interface{}{"distinct_nontrivial": int(atomic.LoadInt64(&vl14.n)), "histogram": map[string]int{"foreign-ack:exchanges": int(atomic.LoadInt64(&vl14.n))},
